@@ -586,7 +586,7 @@ def check(prog, rep):
     sp1 = [src(n.value) for n in walk_local(vinit.node) if isinstance(n, ast.Assign) and src(n.targets[0]) == "parts"]
     sp2 = [src(n.value) for n in walk_local(nat[0].node) if isinstance(n, ast.Assign) and src(n.targets[0]) == "parts"]
     same = same and sp1 == sp2 and bool(sp1)
-    rep.pin("Problem.variables shape rules", "R16.4", "natural-key", same, "Variable._sort_key and the fallback key are the same expression" if same else "the two copies of the natural sort key differ", loc=nat[0].loc, detail="two-copies-agree")
+    rep.pin("Problem.variables shape rules", "R16.4", "natural-key", same, "Variable._sort_key and the fallback key are the same expression" if same else "the two copies of the natural sort key differ", loc=nat[0].loc, detail="two-copies-agree", extra={"also_locs": [vinit.loc]})
     numeric = bool(k1) and "int(p) if p.isdigit() else p" in src(k1[0])
     rep.pin("Problem.variables shape rules", "R16.4", "natural-key", numeric, "digit runs compare numerically" if numeric else "the sort key does not convert digit runs to integers (x[10] would sort before x[2])", loc=vinit.loc, detail="numeric-aware")
 
